@@ -51,6 +51,17 @@ fn main()
 			for n in [1usize, 4, 5, 252] { let d = rng.bytes(n); emit(format!("D {}", hex_bytes(&d)), &mut out); }
 			emit(format!("S {}", hex_bytes(&vec![0u8; 252])), &mut out);
 			emit(format!("S {}", hex_bytes(&vec![0xFFu8; 252])), &mut out);
+			// strings longer than any internal block one might fold by (4 KiB pages, 64 KiB), whole and in pieces
+			for len in [4095usize, 4096, 4097, 8192, 9000, 65537]
+			{
+				let data = rng.bytes(len);
+				emit(format!("S {}", hex_bytes(&data)), &mut out);
+				emit(format!("D {}", hex_bytes(&data)), &mut out);
+				let mut pieces = Vec::new(); let mut pos = 0;
+				while pos < len { let n = (700 + pos % 13).min(len - pos); pieces.push(hex_bytes(&data[pos..pos + n])); pos += n; }
+				emit(format!("P {}", pieces.join(" ")), &mut out);
+				emit(format!("P {} {}", hex_bytes(&data[..1]), hex_bytes(&data[1..])), &mut out);
+			}
 			// single update from many reachable states x all 256 bytes
 			let nstates = if thorough { 2000 } else { 120 };
 			for k in 0..nstates
